@@ -228,12 +228,17 @@ func Capitalize(s string) string {
 		if unicode.IsUpper(r) {
 			return s
 		}
-		r = unicode.ToUpper(r)
+		u := unicode.ToUpper(r)
+		if u == r {
+			return s
+		}
+		// The upper case form may be encoded with a different number of bytes.
+		_, size := utf8.DecodeRuneInString(s[i:])
 		b := strings.Builder{}
 		b.Grow(len(s))
 		b.WriteString(s[:i])
-		b.WriteRune(r)
-		b.WriteString(s[i+utf8.RuneLen(r):])
+		b.WriteRune(u)
+		b.WriteString(s[i+size:])
 		return b.String()
 	}
 	return s
